@@ -89,20 +89,22 @@ structure Trans (s s' : St) (evs : List DStmt) : Prop where
   mono : s.curReg ≤ s'.curReg
   vals : s'.vals = s.vals
   inner : ∀ n, s'.innerUsed n = s.innerUsed n
+  rootNames : s'.root.innerNames = s.root.innerNames
 
-theorem Trans.refl (s : St) : Trans s s [] := ⟨by simp, rfl, fun _ _ => rfl, Nat.le_refl _, rfl, fun _ => rfl⟩
+theorem Trans.refl (s : St) : Trans s s [] := ⟨by simp, rfl, fun _ _ => rfl, Nat.le_refl _, rfl, fun _ => rfl, rfl⟩
 
 theorem Trans.trans {a b c : St} {e1 e2 : List DStmt} (h1 : Trans a b e1) (h2 : Trans b c e2) : Trans a c (e1 ++ e2) :=
   ⟨by rw [h2.out, h1.out, List.append_assoc], by rw [h2.decls, h1.decls],
    fun x hx => by rw [h2.stable x (hx.mono h1.mono), h1.stable x hx],
-   Nat.le_trans h1.mono h2.mono, by rw [h2.vals, h1.vals], fun n => by rw [h2.inner, h1.inner]⟩
+   Nat.le_trans h1.mono h2.mono, by rw [h2.vals, h1.vals], fun n => by rw [h2.inner, h1.inner],
+   by rw [h2.rootNames, h1.rootNames]⟩
 
 theorem trans_addErr (k : ErrKind) (v : Name) (l o : Nat) (s : St) : Trans s (s.addErr k v l o) [] :=
-  ⟨by simp [abs_addErr], rfl, fun _ _ => rfl, Nat.le_refl _, rfl, fun _ => rfl⟩
+  ⟨by simp [abs_addErr], rfl, fun _ _ => rfl, Nat.le_refl _, rfl, fun _ => rfl, rfl⟩
 
 theorem trans_incReg (s : St) : Trans s s.incReg [] :=
   ⟨by simp [abs_incReg], by rw [abs_incReg], fun _ _ => by rw [abs_incReg], by rw [curReg_incReg]; omega,
-   vals_incReg s, innerUsed_incReg s⟩
+   vals_incReg s, innerUsed_incReg s, rfl⟩
 
 /-- pushing an instruction whose abstract step binds only registers above the counter -/
 theorem trans_push_bind (i : Instr) (s : St) (evs : List DStmt)
@@ -115,7 +117,7 @@ theorem trans_push_bind (i : Instr) (s : St) (evs : List DStmt)
      intro q hq
      unfold Held at hx; rw [hq] at hx
      exact hreg q hx,
-   by rw [curReg_push]; exact Nat.le_refl _, vals_push i s, innerUsed_push i s⟩
+   by rw [curReg_push]; exact Nat.le_refl _, vals_push i s, innerUsed_push i s, rfl⟩
 
 /-- bump the counter, then push an instruction whose abstract step binds only registers above the old counter -/
 theorem trans_incPush (i : Instr) (s : St) (evs : List DStmt)
@@ -129,7 +131,7 @@ theorem trans_incPush (i : Instr) (s : St) (evs : List DStmt)
      unfold Held at hx; rw [hq] at hx
      exact hreg q hx,
    by rw [curReg_push, curReg_incReg]; omega, by rw [vals_push, vals_incReg],
-   fun n => by rw [innerUsed_push, innerUsed_incReg]⟩
+   fun n => by rw [innerUsed_push, innerUsed_incReg], rfl⟩
 
 /-! ### Source scope against the value tables -/
 
